@@ -40,12 +40,20 @@ import (
 // types: what it receives stays opaque (opaqueLeaf / opaqueWrapper), while
 // the errors it builds locally have its own Go types. Such a process is an
 // intermediary or a receiver, never a sender.
+//
+// NoMig (version skew): the process has the Go type of its version (V1..V3
+// or Alt) but declares NO migration for the lineage, e.g. because it lacks
+// that entry: it names the type by its current name, on the wire and for its
+// decoders. To a process that did declare the rename, that family name is
+// the "new" name of one of its migrations and no decoder of its is keyed
+// under it: what arrives stays opaque there and must be forwarded unchanged.
 type Proc struct {
 	Ver    string `json:"ver"`
 	Order  []int  `json:"order,omitempty"`
 	Direct bool   `json:"direct,omitempty"`
 	Obs    []int  `json:"obs,omitempty"`
 	NoDec  bool   `json:"nodec,omitempty"`
+	NoMig  bool   `json:"nomig,omitempty"`
 }
 
 const unknowing = "unknowing"
@@ -55,6 +63,16 @@ func (p Proc) knows() bool { return p.Ver != unknowing }
 // decodes tells whether the process decodes the lineage's types to Go types
 // of its own (else they stay opaque).
 func (p Proc) decodes() bool { return p.knows() && !p.NoDec }
+
+// keyed is the version under whose names the process puts the lineage's
+// types on the wire and registers its decoders (the model): the first name,
+// or, without migration, its own.
+func (p Proc) keyed(l *lineage) *version {
+	if p.NoMig {
+		return p.cur(l)
+	}
+	return l.chain[0]
+}
 
 // n is the length of the rename chain this process declares.
 func (p Proc) n() int {
@@ -73,6 +91,8 @@ func (p Proc) n() int {
 // each of its rename declarations for lineage T.
 func (p Proc) points() int {
 	switch {
+	case p.NoMig:
+		return 0
 	case p.Ver == "Alt" || p.Direct:
 		return 1
 	case p.Ver == "V0" || p.Ver == unknowing:
@@ -120,6 +140,9 @@ func (p Proc) String() string {
 	if p.NoDec {
 		s += "{no decoders}"
 	}
+	if p.NoMig {
+		s += "{no migration declared}"
+	}
 	return s
 }
 
@@ -135,7 +158,8 @@ func orderString(o []int) string {
 // configuration at fault: chain length and registration order only. In a
 // "chronological" order the renames are declared oldest first (A->B before
 // B->C); "newest-first" is the exact reverse. "|no-decoder" is appended for a
-// process that registers no decoder for the lineage.
+// process that registers no decoder for the lineage; the order is
+// "undeclared" for a process that declares no migration.
 func (p Proc) key() string {
 	if p.NoDec {
 		return p.baseKey() + "|no-decoder"
@@ -145,6 +169,8 @@ func (p Proc) key() string {
 
 func (p Proc) baseKey() string {
 	switch {
+	case p.NoMig:
+		return fmt.Sprintf("n=%d|order=undeclared", p.n())
 	case p.Ver == unknowing:
 		return "n=-|order=unknowing"
 	case p.Ver == "V0":
@@ -184,6 +210,9 @@ func (p Proc) valid() bool {
 	}
 	if p.NoDec && !p.knows() {
 		return false
+	}
+	if p.NoMig {
+		return p.n() > 0 && len(p.Order) == 0 && !p.Direct && !p.NoDec
 	}
 	switch p.Ver {
 	case "V0", "Alt", unknowing:
@@ -266,6 +295,8 @@ func (p Proc) history(o opts) []event {
 	var steps []step
 	l := o.lin
 	switch {
+	case p.NoMig:
+		// no rename of the lineage is declared
 	case p.Ver == "Alt":
 		steps = append(steps, step{renameCalls(l.chain[0], l.chain[0], l.alt), l.alt})
 	case p.Direct:
@@ -572,6 +603,19 @@ func withoutDecoders(ps []Proc) []Proc {
 	for _, p := range ps {
 		p.NoDec = true
 		out = append(out, p)
+	}
+	return out
+}
+
+// skewedProcs is the processes that have a later name of the lineage but
+// declare no migration.
+func skewedProcs(l *lineage) []Proc {
+	var out []Proc
+	for n := 1; n <= l.maxN(); n++ {
+		out = append(out, Proc{Ver: "V" + strconv.Itoa(n), NoMig: true})
+	}
+	if l.alt != nil {
+		out = append(out, Proc{Ver: "Alt", NoMig: true})
 	}
 	return out
 }
